@@ -308,6 +308,11 @@ def reuse_gated_reasons(g, fresh=None):
     if "set_source_file" in frags or ("set_source_restore" in frags and g.get("main_file", "answer.py") != "answer.py"):
         out.append("set_source-under-another-filename-leaves-that-file")
     secs = [i for i, f in enumerate(frags) if f in _SECTION_FRAGS or f == "xr_sections"]
+    if secs and any(f in ("recontext", "recontext_noclear") for f in frags[secs[0] + 1:]):
+        # the script itself hands the report ANOTHER submission while sections are active on the first one: the
+        # first Submission is then never un-sectioned - the script's own doing (like set_source without
+        # restore_code), exempt, not a finding
+        out.append("script-replaces-the-submission-while-sections-are-active")
     if secs and (any(f in CRASHES or f in ("xr_crash", "ov_bad") for f in frags[secs[0] + 1:])
                  or (fresh is not None and (fresh.get("error") or "raised" in fresh))):
         out.append("crash-while-sections-are-active")
